@@ -3,7 +3,7 @@ import SleapVerif.Model.Arch
 import SleapVerif.Gen.TranslatedArch
 /-! Driver for C14.
 
-`model fam variant filters p q maxStride bos stem cpb middle upInterp inCh fixMid fixWrap stemKernel fixHead <nh> (head spec)* <nc> (h w)*`
+`model fam variant filters p q maxStride bos stem cpb middle upInterp inCh fixMid fixWrap stemKernel fixHead bottomup <nh> (name head-spec)*  [the mapping, in its key order] <nc> (h w)*`
   → `construct-raise <err>` | `built L <labels> O <dec out> I <head in> E <enc conv in/out…> C <dec convIn tIn…> | <last call>` with
     `<last call>` = `fwd-raise <err>` | `ok G <n> (label ch h w)* H <n> (ch h w)*`
   (the calls are a history on one module: first call fresh pools, later calls stale pools).
@@ -53,7 +53,9 @@ def pCfg : P (Cfg × List (Nat × Nat) × Bool) := do
   let variant ← nat; let filters ← nat; let p ← nat; let q ← nat; let ms ← nat; let bos ← nat
   let stem ← nat; let cpb ← nat; let mid ← bool; let upi ← bool; let inCh ← nat
   let fixMid ← bool; let fixWrap ← bool; let stemKernel ← nat; let fixHead ← bool
-  let heads ← listOf pHead
+  let bottomup ← bool
+  let mapping ← listOf (do let name ← tok; let h ← pHead; pure (name, h))
+  let heads := getHeads bottomup mapping
   let calls ← listOf (do let h ← nat; let w ← nat; pure (h, w))
   pure ({ fam := fam, variant := variant, filters := filters, rate := ⟨p, q⟩, maxStride := ms, bos := bos,
           stem := stem, cpb := cpb, middle := mid, upInterp := upi, inCh := inCh, heads := heads,
@@ -65,7 +67,7 @@ def handle (line : String) : String :=
     match runP pCfg rest with
     | none => "bad-op"
     | some (c, calls, fixHead) =>
-      match (if fixHead then constructFixed c else construct c) with
+      match (if fixHead then construct c else constructAsIs c) with
       | .err e => "construct-raise " ++ errStr e
       | .ok k =>
         let head := "built L " ++ lstStr (labels k.built.dec) ++ " O " ++ lstStr (k.built.dec.map (·.out))
